@@ -77,7 +77,11 @@ def random_pack_cases(rng, algs, count, oversize=0.0, Bs=(4, 6, 7, 12, 20, 100),
             B = rng.choice(Bs)
             n = rng.randint(0 if alg != "bin_completion" else 1, nmax)
             r = rng.random()
-            if r < 0.2:
+            if alg == "bin_completion" and r < 0.45:
+                B, vals = gen.hard_bc_case(rng, nmax=min(nmax, 11))
+            elif alg != "bin_completion" and r < 0.08:
+                B, vals = gen.big_pack_case(rng, nmax=nmax)
+            elif r < 0.2:
                 vals = gen.planted_packing(rng, rng.randint(1, 4), B)[:nmax]
             elif alg == "bin_completion" or r < 0.5:
                 pool = [rng.randint(1, B) for _ in range(rng.randint(2, 5))]
